@@ -629,6 +629,12 @@ class Interp:
 
     def s_Assert(self, node, scope):
         if not ops.truth(self.ctx, self.eval(node.test, scope)):
+            # a FAILING assert: under `python -O` / PYTHONOPTIMIZE the statement does not exist.  Both interpreters are
+            # explored; the optimised one is a world the path remembers (replays of its witnesses run with -O)
+            if self.ctx.choose(2, label="failing assert: 0 = default interpreter, 1 = python -O") == 1:
+                self.ctx.note("world: an assert statement that fails is skipped under python -O")
+                self.ctx.recorded.append(("python-O", True))
+                return
             raise SymRaise(AssertionError())
 
     def s_Import(self, node, scope):
